@@ -190,6 +190,34 @@ theorem acknowledged_advances_once (s : St) (a : Active) (hq : s.queue = []) :
 code declares, regenerated on every run — and it is three. -/
 theorem repetitions_is_three : REPS = 3 ∧ REPS = Generated.DeviceConfig.requestRepetitions := by decide
 
+/-! ### one request outstanding -/
+
+/-- Over every input history, following the outputs in causal order: a DeviceConfigurationRequest is only ever
+sent for the caller that is already on the wire (a repetition) or when nobody is (and then puts its caller there),
+and only that caller's result takes it off again — `track` never reports two requests outstanding, and ends at the
+holder of the lock. -/
+theorem at_most_one_outstanding (udp : Bool) (ins : List In) :
+    track none (evs (XknxVerif.Automata.run step (St.init udp) ins).2) =
+      some (holder (XknxVerif.Automata.run step (St.init udp) ins).1) := by
+  have key : ∀ (ins : List In) (s : St),
+      track (holder s) (evs (XknxVerif.Automata.run step s ins).2) =
+        some (holder (XknxVerif.Automata.run step s ins).1) := by
+    intro ins
+    induction ins with
+    | nil => intro s; simp [XknxVerif.Automata.run_nil, evs, track]
+    | cons i is ih =>
+      intro s
+      rw [XknxVerif.Automata.run_cons]
+      simp only [evs, List.map_append]
+      rw [track_append]
+      have h1 : track (holder s) (List.map (fun x => x.snd) (step s i).2) = some (holder (step s i).1) := step_track s i
+      rw [h1]
+      exact ih _
+  exact key ins (St.init udp)
+
+/-- `track` does reject two requests on the wire. -/
+example : track none [.tx 1 0 .read ⟨11, 1, 52⟩, .tx 2 1 .read ⟨11, 1, 53⟩] = none := by decide
+
 /-! ### Non-vacuity -/
 example : (step (step (step (St.init true) (.call 0 ⟨1, .read, ⟨11, 1, 52⟩⟩)).1 (.ackIn 0 0 false true)).1
     (.cemi 5 0 ⟨.rc, ⟨11, 1, 52⟩, false, 7⟩)).2 = [(5, .ack 0), (5, .res 1 (.okData 7))] := by decide
